@@ -1372,8 +1372,12 @@ Proof.
     symmetry. apply window_window. assumption.
 Qed.
 
+Lemma read_lit h w : read_src h (SLit w) (lenN w) = w.
+Proof. cbn [read_src]. apply takeN_all. lia. Qed.
+
 (* a state change through `fin` with result contents c_ok / c_throw *)
 Ltac fin_done F :=
+  repeat match type of F with context [nth ?k (vars ?s) sb0] => change (nth k (vars s) sb0) with (getv s k) in F end;
   destruct F as (F1 & F2 & F3 & F4); split; [exact F1|]; split; [exact F2|];
   destruct F4 as [F4|F4]; rewrite F4 in F3 |- *; cbn [spec_after spec_vals spec_throw]; rewrite F3;
   rewrite ?upd_absv_same; reflexivity.
